@@ -176,21 +176,21 @@ func (s *noiseState) setNoisy(c string, v bool) {
 }
 
 type noiseFn struct {
-	sp    *samplerProv
-	depth int
-	c       *core.Ctx
-	pk      *packages.Package
-	info    *types.Info
-	fd      *ast.FuncDecl
-	fkey    string
-	static  map[types.Object]ast.Expr // single-definition aliases
-	multi   map[types.Object]bool
-	skind   func(e ast.Expr) samplerKind
-	out     *[]ob
-	nReads  int
-	checked map[string]bool
-	scoped  map[string]bool
-	expand  map[string][]aliasTarget
+	sp       *samplerProv
+	depth    int
+	c        *core.Ctx
+	pk       *packages.Package
+	info     *types.Info
+	fd       *ast.FuncDecl
+	fkey     string
+	static   map[types.Object]ast.Expr // single-definition aliases
+	multi    map[types.Object]bool
+	skind    func(e ast.Expr) samplerKind
+	out      *[]ob
+	nReads   int
+	checked  map[string]bool
+	scoped   map[string]bool
+	expand   map[string][]aliasTarget
 	loopVars []map[string]bool
 }
 
@@ -1146,15 +1146,15 @@ func noisyParams(c *core.Ctx, sp *samplerProv, f *types.Func, depth int) map[int
 }
 
 var mustEmit = map[string]string{
-	"core/rlwe.(Encryptor).encryptZeroPk":                          "public-key encryption: both components carry an error",
-	"core/rlwe.(Encryptor).encryptZeroPkNoP":                       "public-key encryption without P",
-	"core/rlwe.(Encryptor).encryptZeroSkFromC1":                    "secret-key encryption in Q",
-	"core/rlwe.(Encryptor).encryptZeroSkFromC1QP":                  "secret-key encryption in QP (evaluation keys)",
-	"multiparty.(PublicKeyGenProtocol).GenShare":                   "collective public key share",
-	"multiparty.(EvaluationKeyGenProtocol).GenShare":               "collective evaluation key share",
-	"multiparty.(RelinearizationKeyGenProtocol).GenShareRoundOne":  "relinearisation key round 1",
-	"multiparty.(RelinearizationKeyGenProtocol).GenShareRoundTwo":  "relinearisation key round 2",
-	"multiparty.(KeySwitchProtocol).GenShare":                      "collective key-switch share (smudging)",
+	"core/rlwe.(Encryptor).encryptZeroPk":                         "public-key encryption: both components carry an error",
+	"core/rlwe.(Encryptor).encryptZeroPkNoP":                      "public-key encryption without P",
+	"core/rlwe.(Encryptor).encryptZeroSkFromC1":                   "secret-key encryption in Q",
+	"core/rlwe.(Encryptor).encryptZeroSkFromC1QP":                 "secret-key encryption in QP (evaluation keys)",
+	"multiparty.(PublicKeyGenProtocol).GenShare":                  "collective public key share",
+	"multiparty.(EvaluationKeyGenProtocol).GenShare":              "collective evaluation key share",
+	"multiparty.(RelinearizationKeyGenProtocol).GenShareRoundOne": "relinearisation key round 1",
+	"multiparty.(RelinearizationKeyGenProtocol).GenShareRoundTwo": "relinearisation key round 2",
+	"multiparty.(KeySwitchProtocol).GenShare":                     "collective key-switch share (smudging)",
 }
 
 func scanNoise(c *core.Ctx) []ob {
